@@ -49,14 +49,14 @@ func polyArgMap(r *registry, defs []argDef) map[string]*graphql.InputValueDefini
 	return m
 }
 
-func parseArgDefs(text string) ([]argDef, error) {
+func parseArgDefs(text string, env map[string]*InputDef) ([]argDef, error) {
 	x, err := hx.ParseSexp(text)
 	if err != nil {
 		return nil, err
 	}
 	var out []argDef
 	for _, e := range x.List {
-		t, err := parseTy(e.List[1])
+		t, err := parseTy(e.List[1], env)
 		if err != nil {
 			return nil, err
 		}
@@ -89,15 +89,15 @@ func runRealPoly(c *Case) (o PolyObserved, query, variables string, err error) {
 	}
 	p.site = "field"
 	query, variables = polyQuery(p, c.Via), p.variablesText()
-	defsA, err := parseArgDefs(c.ImplA)
+	defsA, err := parseArgDefs(c.ImplA, p.env)
 	if err != nil {
 		return o, query, variables, err
 	}
-	defsB, err := parseArgDefs(c.ImplB)
+	defsB, err := parseArgDefs(c.ImplB, p.env)
 	if err != nil {
 		return o, query, variables, err
 	}
-	r := &registry{enums: map[string]*graphql.EnumType{}, inputs: map[string]*graphql.InputObjectType{}}
+	r := newRegistry()
 	seen := [2][]string{}
 	record := func(i int) func(graphql.FieldContext) (interface{}, error) {
 		return func(ctx graphql.FieldContext) (interface{}, error) {
@@ -110,10 +110,10 @@ func runRealPoly(c *Case) (o PolyObserved, query, variables string, err error) {
 	}}
 	objA := &graphql.ObjectType{Name: "A", ImplementedInterfaces: []*graphql.InterfaceType{node},
 		IsTypeOf: func(v interface{}) bool { _, ok := v.(polyA); return ok },
-		Fields: map[string]*graphql.FieldDefinition{"f": {Type: graphql.StringType, Arguments: polyArgMap(r, defsA), Resolve: record(0)}}}
+		Fields:   map[string]*graphql.FieldDefinition{"f": {Type: graphql.StringType, Arguments: polyArgMap(r, defsA), Resolve: record(0)}}}
 	objB := &graphql.ObjectType{Name: "B", ImplementedInterfaces: []*graphql.InterfaceType{node},
 		IsTypeOf: func(v interface{}) bool { _, ok := v.(polyB); return ok },
-		Fields: map[string]*graphql.FieldDefinition{"f": {Type: graphql.StringType, Arguments: polyArgMap(r, defsB), Resolve: record(1)}}}
+		Fields:   map[string]*graphql.FieldDefinition{"f": {Type: graphql.StringType, Arguments: polyArgMap(r, defsB), Resolve: record(1)}}}
 	union := &graphql.UnionType{Name: "U", MemberTypes: []*graphql.ObjectType{objA, objB}}
 	// B first: with a per-node cache the later types would get B's (larger) map; A first in the other list
 	items := func(first interface{}, second interface{}) func(graphql.FieldContext) (interface{}, error) {
@@ -129,6 +129,16 @@ func runRealPoly(c *Case) (o PolyObserved, query, variables string, err error) {
 			collect(t.Elem)
 		case "scalar":
 			extra = append(extra, scalarTypes[t.Name])
+		case "custom":
+			extra = append(extra, customTypes[t.Name])
+		case "input":
+			if _, done := r.inputs[t.Name]; done {
+				return
+			}
+			extra = append(extra, r.gql(t).(graphql.NamedType))
+			for _, f := range t.Def.Fields {
+				collect(f.Ty)
+			}
 		default:
 			extra = append(extra, r.gql(t).(graphql.NamedType))
 		}
@@ -150,9 +160,21 @@ func runRealPoly(c *Case) (o PolyObserved, query, variables string, err error) {
 	if err != nil {
 		return o, query, variables, fmt.Errorf("schema rejected: %v", err)
 	}
-	var vars map[string]interface{}
-	if err := json.Unmarshal([]byte(variables), &vars); err != nil {
-		return o, query, variables, fmt.Errorf("variables do not decode: %v", err)
+	vars := map[string]interface{}{}
+	allJSON := true
+	for _, rw := range p.raw {
+		if !jsonKindsOnly(rw.V) {
+			allJSON = false
+		}
+	}
+	if allJSON {
+		if err := json.Unmarshal([]byte(variables), &vars); err != nil {
+			return o, query, variables, fmt.Errorf("variables do not decode: %v", err)
+		}
+	} else {
+		for _, rw := range p.raw {
+			vars[rw.Name] = goIn(rw.V)
+		}
 	}
 	func() {
 		defer func() {
@@ -217,14 +239,21 @@ func runRealPoly(c *Case) (o PolyObserved, query, variables string, err error) {
 
 // polyLines: the three model lines of a spelling (interface, A, B definitions).
 func polyLines(c *Case) []string {
+	env := c.Env
+	if env == "" {
+		env = "()"
+	}
 	with := func(defs string) string {
-		return "(case field " + defs + " " + c.VarDefs + " " + c.Args + " " + c.Raw + ")"
+		return "(rcase field " + env + " " + defs + " " + c.VarDefs + " " + c.Args + " " + c.Raw + ")"
 	}
 	return []string{with(c.ArgDefs), with(c.ImplA), with(c.ImplB)}
 }
 
 // judgePoly evaluates one polymorphic group; replies: three per spelling (or nil).
 func (h *harness) judgePoly(p *prepared, replies []string) []failure {
+	if len(replies) == 0 {
+		replies = nil
+	}
 	g := p.g
 	var fs []failure
 	h.run.Count("site:poly")
@@ -257,7 +286,11 @@ func (h *harness) judgePoly(p *prepared, replies []string) []failure {
 		if o.Class == "ran" {
 			for ti, implText := range []string{c.ImplA, c.ImplB} {
 				name := []string{"A", "B"}[ti]
-				defs, _ := parseArgDefs(implText)
+				env := map[string]*InputDef{}
+				if pc, perr := c.parse(); perr == nil {
+					env = pc.env
+				}
+				defs, _ := parseArgDefs(implText, env)
 				got := o.PerTy[ti]
 				if strings.HasPrefix(got, "odd") {
 					oracle = append(oracle, "type "+name+": "+got)
@@ -335,10 +368,7 @@ func (h *harness) judgePoly(p *prepared, replies []string) []failure {
 	return fs
 }
 
-func splitRes1(reply string) (o1, o3 string, ok bool) {
-	a, _, c, ok := splitRes(reply)
-	return a, c, ok
-}
+func splitRes1(reply string) (o1, o3 string, ok bool) { return splitRes(reply) }
 
 // newPolyGroup: argument `a: T` with the interface's default dI and the implementers' own dA, dB.
 func newPolyGroup(t *Ty, dI, dA, dB *hx.Sexp, v *hx.Sexp, via string) *Group {
